@@ -283,4 +283,14 @@ PROPS = {
         "partial": [],
         "assumptions": [],
     },
+    "C05": {
+        "lean_modules": ["StimModel.Props.C05"],
+        "areas": [
+            {"area": "noise", "n": {"quick": 350, "thorough": 7000}, "replayable": False, "timeout": 3000},
+        ],
+        "rule": "TODO",
+        "trusted_base": [],
+        "partial": [],
+        "assumptions": [],
+    },
 }
